@@ -48,4 +48,5 @@ def run(ctx, rep):
     # instantiation start from the first one's result
     rep.run(RA.rule_mutate_only_fresh, ctx, rep, "S7", "gtwrap/template_instantiator", P1_EXEMPT, min_sites=20)
     rep.run(RI.rule_positions_of_the_list_itself, ctx, rep, "S13")
+    rep.run(RI.rule_instantiate_type_by_evaluation, ctx, rep, "S14", part="substitution")
     rep.run(RF.rule_locals_defined, ctx, rep, "U1", packages=("gtwrap/template_instantiator",), min_functions=3)
